@@ -58,3 +58,7 @@ check("C12", "Hypothesis (rule, chain of 1-3 transformations with scopes); refer
       "A rewrite engine in /verif applies the documented meaning of 20 transformation types (with field include/exclude and log-source scopes, nesting, chains up to 3) to the reference items of the source document; the decoded query must denote the rewritten formula for every truth assignment and the fields list must match; each transformation's identity instance must leave the pipeline-free query byte-identical.",
       "Trusted: the rewrite engine as statement of the documented meaning; undocumented combinations excluded (see assumptions in the evidence).",
       "DESIGN.md section 3, C12")
+check("C14", "model-based generation of operation histories over shared pipeline objects (add, sum, resolve permutations, convert, apply) + exhaustive resolver permutations; oracle = outputs constructed from a spec-list model",
+      "Histories of add / add_none / sum / resolve(permutation) / resolve_again / convert / apply over 1-5 pipelines with priority ties are interpreted against a model that only concatenates spec lists; every conversion output (field suffix order backend-user-format, later vars win, last state, post-processing order after format finalisation, finalizers in order) is compared with a string built from the model. All 3!/4!/5! permutations of the resolver argument list are enumerated.",
+      "Expected outputs built by string construction; fresh backend class per conversion.",
+      "DESIGN.md section 3, C14")
